@@ -1,10 +1,13 @@
 package checks
 
 import (
+	"bytes"
+	"crypto"
 	"crypto/x509"
 	"errors"
 	"fmt"
 	"strings"
+	"sync"
 	"time"
 
 	"github.com/fxamacker/cbor/v2"
@@ -382,6 +385,8 @@ func c16Scenarios(tier mc.Tier) []mc.Scenario {
 		}
 	}
 	out = append(out, mc.Scenario{Name: "C16-NewLocalSigner-arguments", Bound: -1, Body: c16LocalSigner})
+	out = append(out, mc.Scenario{Name: "C16-local-signer-whose-certificate-chain-changes-between-queries", Bound: -1, Expect: 2 * 2 * 7, Body: c16RotatingLocal,
+		Params: map[string]string{"signer": "implements LocalSigner; answers CertificateChain() with a chain valid at the signing time for the first k queries, then with a conforming chain that is not (and the reverse)", "k": "0..6"}})
 	return out
 }
 
@@ -605,3 +610,105 @@ func init() {
 
 type c16NamedString string
 type c16NamedInt int64
+
+// rotatingLocalSigner implements signature.LocalSigner; its certificate (same key) is renewed between two queries.
+type rotatingLocalSigner struct {
+	key     *pki.Key
+	chains  [][]*x509.Certificate
+	queries int
+}
+
+func (s *rotatingLocalSigner) current() []*x509.Certificate {
+	i := s.queries
+	if i >= len(s.chains) {
+		i = len(s.chains) - 1
+	}
+	s.queries++
+	return s.chains[i]
+}
+func (s *rotatingLocalSigner) CertificateChain() ([]*x509.Certificate, error) {
+	return s.current(), nil
+}
+func (s *rotatingLocalSigner) PrivateKey() crypto.PrivateKey       { return s.key.Priv }
+func (s *rotatingLocalSigner) KeySpec() (signature.KeySpec, error) { return envenc.SpecOf(s.key), nil }
+func (s *rotatingLocalSigner) Sign(payload []byte) ([]byte, []*x509.Certificate, error) {
+	sig, ok := envenc.Sign(s.key, envenc.AlgByName(envenc.TableAlg(s.key.Kind)), payload)
+	if !ok {
+		return nil, nil, errors.New("rotating signer: cannot sign")
+	}
+	return sig, s.current(), nil
+}
+
+var (
+	c16RotOnce             sync.Once
+	c16RotGood, c16RotLate []*x509.Certificate
+)
+
+// c16RotatingLocal: whatever chain ends up in the envelope must be valid at the signing time of the request; a chain that is not
+// never yields an envelope, whichever query of the signer it came from.
+func c16RotatingLocal(c *mc.Ctx) {
+	c16RotOnce.Do(func() {
+		root := pki.Issue(pki.RootTmpl("c16 rotating root"), pki.K("rsa2048-a"), nil, nil)
+		good := pki.Issue(pki.LeafTmpl("c16 rotating leaf"), pki.K("p256-e"), root, nil)
+		lt := pki.LeafTmpl("c16 rotating leaf")
+		lt.NotBefore = pki.Now.Add(-30 * time.Minute) // the renewed certificate: conforming, but the request's signing time (an hour ago) precedes it
+		late := pki.Issue(lt, pki.K("p256-e"), root, nil)
+		c16RotGood, c16RotLate = []*x509.Certificate{good.X, root.X}, []*x509.Certificate{late.X, root.X}
+	})
+	media := []string{envenc.MediaJWS, envenc.MediaCOSE}[c.ChooseFree("format", 2)]
+	lateFirst := c.ChooseFree("which-chain-comes-first", 2) == 1
+	k := c.ChooseFree("queries-before-the-change", 7)
+	first, second := c16RotGood, c16RotLate
+	if lateFirst {
+		first, second = c16RotLate, c16RotGood
+	}
+	s := &rotatingLocalSigner{key: pki.K("p256-e")}
+	for i := 0; i < k; i++ {
+		s.chains = append(s.chains, first)
+	}
+	s.chains = append(s.chains, second)
+	req := &signature.SignRequest{
+		Payload:       signature.Payload{ContentType: "application/vnd.cncf.notary.payload.v1+json", Content: []byte(`{"rotating":"signer"}`)},
+		Signer:        s,
+		SigningTime:   pki.Now.Add(-time.Hour),
+		SigningScheme: signature.SigningSchemeX509,
+	}
+	var raw []byte
+	var err error
+	var pan any
+	func() {
+		defer func() {
+			if r := recover(); r != nil {
+				pan = r
+			}
+		}()
+		e, e2 := signature.NewEnvelope(media)
+		if e2 != nil {
+			panic(mc.HarnessError{Msg: e2.Error()})
+		}
+		raw, err = e.Sign(req)
+	}()
+	c.Statef("k=%d lateFirst=%v queries=%d", k, lateFirst, s.queries)
+	if pan != nil {
+		c.Fail(fmt.Sprintf("C16 %s panic-in-Sign [local signer whose chain changes between queries]", mediaShort(media)), "%v", pan)
+		return
+	}
+	if err != nil {
+		c.Outcome("rotating:refused")
+		if len(raw) != 0 {
+			c.Fail(fmt.Sprintf("C16 %s bytes-returned-with-error [local signer whose chain changes between queries]", mediaShort(media)), "%d bytes", len(raw))
+		}
+		return
+	}
+	ct, perr, cerr, _ := parseContent(media, raw)
+	if perr != nil || cerr != nil || len(ct.SignerInfo.CertificateChain) == 0 {
+		c.Outcome("rotating:unreadable")
+		return // that Sign returns readable envelopes is C08's subject
+	}
+	if bytes.Equal(ct.SignerInfo.CertificateChain[0].Raw, c16RotLate[0].Raw) {
+		c.Fail(fmt.Sprintf("C16 %s envelope-produced [chain not valid at the signing time, handed over at a later query of the local signer]", mediaShort(media)),
+			"the signer answered %d queries, the chain changed after %d (not-yet-valid chain first: %v): the envelope carries the certificate whose validity starts after the signing time", s.queries, k, lateFirst)
+		return
+	}
+	c.Outcome("rotating:signed-with-the-valid-chain")
+}
